@@ -5,6 +5,7 @@ import json, os, re, shutil, sys
 V = os.path.dirname(os.path.dirname(os.path.abspath(__file__)))
 MUT = '/tmp/mut'
 S = json.load(open(os.path.join(MUT, 'summaries.json')))
+BASE = {p: 'd3f9bfc95' for p in ('C01', 'C02', 'C04', 'C06', 'C08', 'C09', 'C19', 'C20')}   # first batch was confirmed earlier, on an older commit of the fix series
 CAUGHT = json.load(open(os.path.join(V, 'seeded', 'caught.json'))) if os.path.exists(os.path.join(V, 'seeded', 'caught.json')) else {}
 
 
@@ -53,12 +54,12 @@ def main():
             'needs_to_manifest': S[key]['needs_to_manifest'],
             'author': 'fresh sub-agent that saw only the property text and a scratch worktree of the repository',
             'what_i_ran': {
-                'script': 'tools/confirm_seed.sh %s %s (scratch worktree of /repo HEAD under /tmp, removed afterwards)' % (pid, n),
+                'script': 'tools/confirm_seed.sh %s %s (scratch git worktree of /repo under /tmp at commit %s, removed afterwards)' % (pid, n, BASE.get(pid, '8247a5f2d')),
                 'steps': ['demo.cpp compiled against the kernel libraries of the unchanged tree and run: exit %s' % c['demo_clean'],
                           'git apply patch.diff; cmake --build: exit %s' % c['build'],
                           'full existing suite (ctest, 121 tests): %s' % ('all passed' if c['ctest'] == 0 else 'parallel run had failures caused by concurrent ninja invocations of the test wrappers; serial rerun of those: all passed'),
                           'demo.cpp rebuilt against the changed tree and run: exit %s (see demo.with_change.out)' % c['demo_mut']],
-                'demo_build': 'g++ -std=c++17 -O1 -DNDEBUG -w -I<tree> -I<tree>/_build demo.cpp -Wl,--start-group <all kernel/thirdparty .a of the build> -Wl,--end-group -lpthread',
+                'demo_build': 'g++ -std=c++17 -O1 -DNDEBUG -w -I<tree> -I<tree>/_build demo.cpp -Wl,--start-group <all kernel/thirdparty .a of the build> -Wl,--end-group -lpthread' + (' (plus -fopenmp: the voxel assembly library uses OpenMP)' if pid == 'C16' else ''),
             },
             'check_result': CAUGHT.get(key, 'see seeded/RESULTS.md'),
         }
